@@ -132,6 +132,64 @@ def h_web_invalid(body: bytes, exists: bool, vcf: bool, nparams: int, post: bool
     return run(body_web_invalid, body, exists, vcf, nparams, post, ifmatch)
 
 
+# ------------------------------------------------------------------ what is stored is valid as what it is SERVED as
+SK_NAMES = ["g.ics", "g.vcf", "G.ICS", "g.ics.gz", "g.txt", "g"]
+SK_CTS = ["text/calendar", "text/vcard", "text/plain", "application/octet-stream", "text/calendar; charset=utf-8", "text/x-vcard"]
+SK_BODIES = [b"!x", b"xa", b"v1"]
+
+
+def body_served_kind(ni, ci, post):
+    """'Every member of a calendar or address book can always be parsed and served': member names x request media
+    types x bodies (invalid for both kinds / fine) from menus, into the calendar and into the address book, by PUT or
+    POST.  Whatever the server acknowledges and then SERVES as text/calendar or text/vcard is a body that is valid
+    for that kind - the media type of the request and the kind under which the member is listed cannot disagree
+    about what was validated; a refusal stores nothing."""
+    from xv.core import picks, untraced
+    name, ct, post = picks((ni, ci, post), (SK_NAMES, SK_CTS, "bool"))
+    with untraced():
+        refusals = 0
+        for col in (mweb.CAL, mweb.AB):
+            for body in SK_BODIES:
+                w = mweb.fresh_world({"a.ics": b"xq"}, {"c.vcf": b"v9"})
+                app = mweb.make_app()
+                before = Wm.digest(w)
+                if post:
+                    r = mweb.call(app, "POST", col + "/", body=body, content_type=ct)
+                else:
+                    r = mweb.call(app, "PUT", col + "/" + name, body=body, content_type=ct)
+                if r.status_class == "5xx":
+                    return (False, "crashed")
+                if r.status_class != "2xx":
+                    if Wm.digest(w) != before:
+                        return (False, "refused-but-stored")
+                    refusals += 1
+                    continue
+                lst = mweb.call(app, "PROPFIND", col + "/", headers=[("Depth", "1")], xml=mweb.propfind_body("{DAV:}getcontenttype"))
+                if lst.kind != "multistatus":
+                    return (False, "no-listing")
+                for st in lst.statuses:
+                    if st.href.endswith("/"):
+                        continue
+                    g = mweb.call(app, "GET", st.href)
+                    if g.status_class != "2xx":
+                        return (False, "listed-not-served")
+                    kind = (g.header("Content-Type") or "").split(";")[0]
+                    probe = {"text/calendar": "x.ics", "text/vcard": "x.vcf"}.get(kind)
+                    if probe is not None and not SP.valid(probe, g.body):
+                        ctx.LAST_EXC = "%s %s%s as %s, body %r: acknowledged, then served as %s" % (
+                            "POST" if post else "PUT", col, "" if post else "/" + name, ct, body, kind)
+                        return (False, "invalid-served-as-" + kind)
+        return (True, "refusals" if refusals else "all-stored")
+
+
+def h_served_kind(ni: int, ci: int, post: bool) -> bool:
+    """
+    pre: 0 <= ni < len(SK_NAMES) and 0 <= ci < len(SK_CTS)
+    post: _
+    """
+    return run(body_served_kind, ni, ci, post)
+
+
 # ------------------------------------------------------------------ (d) the real validators, parsers stubbed
 class _AB:
     def __init__(self, ok):
@@ -400,6 +458,14 @@ HARNESSES = [
             encodes=["xandikos.webdav.PutMethod.handle", "xandikos.webdav.PostMethod.handle", "xandikos.web.ObjectResource.set_body",
                      "xandikos.web.StoreBasedCollection.create_member", "xandikos.webdav.DAVGetCTagProperty.get_value",
                      "xandikos.store.git.TreeGitStore._import_one"]),
+    Harness("served_kind", h_served_kind, body_served_kind, classes=["refusals", "all-stored"], budget={"quick": 60, "thorough": 120},
+            describe="6 member names (.ics, .vcf, upper case, .ics.gz, .txt, none) x 6 request media types (own kind, the other "
+                     "kind, text/plain, octet-stream, with parameters) x bodies valid / invalid, PUT or POST, into the calendar and "
+                     "the address book: what is acknowledged and then served as text/calendar or text/vcard is valid as that kind; "
+                     "a refusal stores nothing; exhaustive over the menus",
+            encodes=["xandikos.store.git.GitStore.import_one", "xandikos.store.open_by_content_type", "xandikos.store.open_by_extension",
+                     "xandikos.store.git.GitStore.iter_with_etag", "xandikos.web.StoreBasedCollection.create_member",
+                     "xandikos.webdav.PutMethod.handle", "xandikos.webdav.PostMethod.handle"]),
     Harness("corpus", h_corpus, body_corpus, classes=["valid", "invalid"], budget={"quick": 60, "thorough": 120},
             describe="%d real bodies (valid ones incl. LF-only endings, folded and long lines, grouped vCard properties, astral "
                      "text, VTIMEZONE / TZID, RRULE / EXDATE / RDATE; one member of each invalid class incl. control "
